@@ -1223,6 +1223,11 @@ VARIANTS += [
          edits=[dict(file='ipa-core/src/helpers/transport/stream/input.rs', find='            .map(|bytes| T::deserialize(GenericArray::from_slice(&bytes)))\n    }\n\n    /// Update the buffer with the result of polling a stream.\n    fn extend(&mut self, bytes: Option<Result<Bytes, BoxError>>) -> ExtendResult {\n        match bytes {\n', replace='            .map(|bytes| T::deserialize(GenericArray::from_slice(&bytes)))\n    }\n\n    /// Read the payload of a length-delimited item whose length prefix was `len`.\n    ///\n    /// Unlike [`Self::read_bytes`], a zero `len` is a valid (empty) payload that is always\n    /// available. Returns `None` if there are less than `len` bytes in the buffer.\n    fn read_payload(&mut self, len: usize) -> Option<Bytes> {\n        if len == 0 {\n            Some(Bytes::from(&[] as &[u8]))\n        } else {\n            self.read_bytes(len)\n        }\n    }\n\n    /// Update the buffer with the result of polling a stream.\n    fn extend(&mut self, bytes: Option<Result<Bytes, BoxError>>) -> ExtendResult {\n        match bytes {\n'), dict(file='ipa-core/src/helpers/transport/stream/input.rs', find='            }\n\n            if let Some(len) = *this.pending_len {\n                let bytes = if len == 0 {\n                    Some(Bytes::from(&[] as &[u8]))\n                } else {\n                    this.buffer.read_bytes(len)\n                };\n                if let Some(bytes) = bytes {\n                    *this.pending_len = None;\n                    consumed_len += len;\n                    match T::try_from(bytes) {\n', replace='            }\n\n            if let Some(len) = *this.pending_len {\n                if let Some(bytes) = this.buffer.read_payload(len) {\n                    *this.pending_len = None;\n                    consumed_len += len;\n                    match T::try_from(bytes) {\n')]),
 ]
 
+VARIANTS += [
+    dict(prop="C03", name="batch-first-record-if-else", benign=True,
+         edits=[dict(file='ipa-core/src/protocol/context/dzkp_validator.rs', find='            max_multiplications_per_gate,\n            ctx.total_records(),\n            Box::new(move |batch_index| {\n                let first_record = (max_multiplications_per_gate != usize::MAX)\n                    .then(|| RecordId::from(batch_index * max_multiplications_per_gate));\n                Batch::new(first_record, max_multiplications_per_gate)\n            }),\n        );\n', replace='            max_multiplications_per_gate,\n            ctx.total_records(),\n            Box::new(move |batch_index| {\n                // With an unlimited batch size there is a single batch, and its first\n                // record is determined when the first segment is added.\n                let first_record = if max_multiplications_per_gate == usize::MAX {\n                    None\n                } else {\n                    Some(RecordId::from(batch_index * max_multiplications_per_gate))\n                };\n                Batch::new(first_record, max_multiplications_per_gate)\n            }),\n        );\n')]),
+]
+
 # rules shared between properties: the same edit must be reported under the other property too
 VARIANTS += [dict(v, prop="C05", name=v["name"] + "@C05") for v in VARIANTS
              if v["name"] in ("h1-shuffle-empty-shard-leaves", "sharded-shuffle-empty-shard-leaves", "reshard-closes-channels-on-input-error", "reshard-closes-before-matching-none")]
